@@ -724,3 +724,75 @@ TYPES2 = {
 '''
     r2 = Repo(repo.root, overlay={CPP_ATTRIBUTES: new})
     return any("_bad_validator" in f.construct for f in validatorguard(r2).findings)
+
+
+# ---- R-ENUMINFER ------------------------------------------------------------------------------------
+def enuminfer(repo):
+    """R-ENUMINFER (C19): the defaults an enum gets for `maximum_bits` and `is_signed`.
+    * each attribute is added only under `<value read for that same attribute> is None`, and the attribute constructed
+      in that branch is the one that was read (no crossed names);
+    * the default width is the documented 64 (language-reference: "If not specified, maximum_bits defaults to 64");
+    * `is_signed` is inferred True exactly when some value is `< 0` (strict comparison with the literal 0 of the
+      value's constant), False in the loop's else."""
+    res = RuleResult("R-ENUMINFER")
+    m = repo.mod(ATTRIBUTE_CHECKER)
+    f = None
+    for g in m.top_funcs():
+        src = m.seg(g.node)
+        if "ENUM_MAXIMUM_BITS" in src and "IS_SIGNED" in src and "extend" in src:
+            f = g
+    if f is None:
+        raise AnalysisError("attribute_checker: the function adding enum width/sign defaults was not found")
+    reads = {}
+    for n in walk_no_nested_funcs(f.node):
+        if isinstance(n, ast.Assign) and isinstance(n.value, ast.Call) and (call_name(n.value) or "").split(".")[-1].startswith("get_") \
+                and len(n.value.args) >= 2 and isinstance(n.targets[0], ast.Name):
+            reads[n.targets[0].id] = ast.unparse(n.value.args[1])
+    branches = 0
+    for n in walk_no_nested_funcs(f.node):
+        if isinstance(n, ast.If) and isinstance(n.test, ast.Compare) and isinstance(n.test.ops[0], ast.Is) \
+                and isinstance(n.test.left, ast.Name) and n.test.left.id in reads:
+            want = reads[n.test.left.id]
+            built = [ast.unparse(c.args[0]) for st in n.body for c in ast.walk(st) if isinstance(c, ast.Call)
+                     and (call_name(c) or "").startswith("_construct_") and c.args]
+            branches += 1
+            res.instances += 1
+            if built != [want]:
+                res.add(f"{ATTRIBUTE_CHECKER}|{f.name}|{want}|crossed", f"{f.name}: when {want} is missing the attribute(s) {built} are added",
+                        ATTRIBUTE_CHECKER, n.lineno, f.name)
+            if "MAXIMUM_BITS" in want:
+                for st in n.body:
+                    for c in ast.walk(st):
+                        if isinstance(c, ast.Call) and (call_name(c) or "").startswith("_construct_") and len(c.args) >= 2:
+                            v = c.args[1]
+                            val = v.value if isinstance(v, ast.Constant) else None
+                            if isinstance(v, ast.Name) and v.id in m.assigns and isinstance(m.assigns[v.id][-1], ast.Constant):
+                                val = m.assigns[v.id][-1].value
+                            res.instances += 1
+                            if val != 64:
+                                res.add(f"{ATTRIBUTE_CHECKER}|{f.name}|default-bits", f"the default maximum_bits of an enum is {val}; "
+                                        "documented: 64", ATTRIBUTE_CHECKER, c.lineno, f.name)
+            if "IS_SIGNED" in want:
+                loops = [x for st in n.body for x in ast.walk(st) if isinstance(x, ast.For)]
+                res.instances += 1
+                ok = False
+                for lp in loops:
+                    tests = [x for x in ast.walk(lp) if isinstance(x, ast.If)]
+                    for t in tests:
+                        c = t.test
+                        strict = isinstance(c, ast.Compare) and len(c.ops) == 1 and (
+                            (isinstance(c.ops[0], ast.Lt) and isinstance(c.comparators[0], ast.Constant) and c.comparators[0].value == 0)
+                            or (isinstance(c.ops[0], ast.Gt) and isinstance(c.left, ast.Constant) and c.left.value == 0))
+                        sets_true = any(isinstance(a, ast.Assign) and isinstance(a.value, ast.Constant) and a.value.value is True for a in t.body)
+                        sets_false = any(isinstance(a, ast.Assign) and isinstance(a.value, ast.Constant) and a.value.value is False for a in lp.orelse)
+                        if strict and sets_true and sets_false and any(isinstance(b, ast.Break) for b in t.body):
+                            ok = True
+                if not ok:
+                    res.add(f"{ATTRIBUTE_CHECKER}|{f.name}|sign-inference", f"{f.name}: is_signed is not inferred as 'some value < 0' "
+                            "(True on the first negative value, False in the loop's else): an enum with a negative value gets an "
+                            "unsigned representation, or a non-negative one a signed one", ATTRIBUTE_CHECKER, n.lineno, f.name)
+    if branches < 2:
+        raise AnalysisError(f"{f.name}: only {branches} default branches recognised")
+    res.samples = [f"{f.name}: defaults for {sorted(reads.values())}"]
+    res.analysed = [ATTRIBUTE_CHECKER]
+    return res
